@@ -297,7 +297,8 @@ def h_bam_index(ctx, ext):
     ctx.claim(got in files and bool(files[got] >= t_bam), "the index that is used exists and is not older than the alignment file")
     first = long_name if long_name in before else short_name
     fresh = first in before and bool(before[first] >= t_bam)
-    ctx.claim((len(built) == 0) == fresh, "the index is rebuilt exactly when there is none or the existing one is older than the alignment file")
+    # (rebuilding a fresh index would be wasteful, not wrong: only the direction that matters is claimed)
+    ctx.claim(fresh or len(built) > 0, "a missing or stale index is rebuilt")
     ctx.cover("stale index", first in before and not fresh)
     ctx.cover("fresh index", fresh)
     ctx.cover("no index", first not in before)
